@@ -50,7 +50,11 @@ def _force_missing(_):
     bad = []
     try:
         cfgs = [build_config(fam, rc, root / 'data', root / f'w{i}') for i, rc in enumerate(['u1', 'm12'])]
-        mc = MultiChain(cfgs)
+        try:
+            mc = MultiChain(cfgs)
+        except Exception as e:  # noqa
+            return [('construct', f'MultiChain([u1, m12]) - the same pipeline unmounted and mounted twice - failed to build: '
+                                  f'{type(e).__name__}: {e}')]
         before = {name: t.is_forced for c in mc.chains.values() for name, t in c.tasks.items()}
         try:
             mc.force(['a'])     # 'a' exists in u1, is ambiguous (n1::a / n2::a) in m12
